@@ -63,7 +63,17 @@ def run(ctx: Ctx) -> None:
     hs = [n for n in walk_local(pf) if isinstance(n, ast.Assign) and dotted(n.targets[0]) == "headers"]
     ok = bool(hs) and norm(hs[0].value) == "scope['headers']" and dc and hs[0].lineno > g.node(dc[0]).line
     muts = [c for c in calls(pf) if call_name(c) in ("headers.append", "headers.extend", "headers.insert")]
-    ok = ok and all(any(isinstance(s, ast.Assign) and dotted(s.targets[0]) == "headers" and isinstance(s.value, ast.ListComp) and s.lineno < c.lineno for s in hs) for c in muts)
+    def _fresh(val, depth=0):
+        if isinstance(val, (ast.ListComp, ast.List)) or (isinstance(val, ast.Call) and call_name(val) == "list"):
+            return True
+        if isinstance(val, ast.Name) and depth < 3:
+            defs_ = [n for n in walk_local(pf) if isinstance(n, (ast.Assign, ast.AnnAssign)) and dotted(n.targets[0] if isinstance(n, ast.Assign) else n.target) == val.id and getattr(n, "value", None) is not None]
+            return bool(defs_) and all(_fresh(d_.value, depth + 1) for d_ in defs_)
+        return False
+
+    for c in muts:
+        before = [s for s in hs if s.lineno < c.lineno]
+        ok = ok and bool(before) and _fresh(max(before, key=lambda s: s.lineno).value)
     ctx.check("C20.R2", wp, "header list rebuilt (not mutated in place) before host is replaced", ok, "the caller's header list would be mutated", pf)
     appc = [c for c in calls(pf) if call_name(c) == "self.app"]
     ok = len(appc) == 1 and [norm(a) for a in appc[0].args] == ["scope", "receive", "send"] and not guard_atoms(appc[0])
